@@ -60,6 +60,10 @@ def attribute(v):
         props.add("C03")
     if a in KO_ACTIONS and fields:
         props.add("C07")
+    # the truth table of a rule, as cobra evaluates it, is not the Boolean function of the rule that was set: the
+    # evaluation knock-outs rely on is wrong ("bounds zero iff the rule evaluates to false", reaction.functional)
+    if any(f.split(":")[-1] == "rule" for f in fields):
+        props.add("C07")
     if a == "RoundTrip" and anything:
         props.add("C10" if op.get("fmt") in SBML_FMTS else "C11")
     if a == "SaveDoc" and anything:
